@@ -83,7 +83,7 @@ func (b *GenBinder) TypedefNames(mod *ymodel.Module, chain []*ymodel.Body) []ymo
 	return out
 }
 
-func (b *GenBinder) GroupingNames(mod *ymodel.Module, chain []*ymodel.Body) []string {
+func (b *GenBinder) GroupingNames(mod *ymodel.Module, chain []*ymodel.Body) []ymodel.GroupingCand {
 	r := New(b.Set)
 	s := b.scope(mod, chain)
 	names := map[string]bool{}
@@ -100,9 +100,7 @@ func (b *GenBinder) GroupingNames(mod *ymodel.Module, chain []*ymodel.Body) []st
 		}
 		walk(&m.Body)
 	}
-	var out []string
-	byTarget := map[*ymodel.Grouping]bool{}
-	_ = byTarget
+	var out []ymodel.GroupingCand
 	for _, n := range sortedKeys(names) {
 		spellings := []string{n, mod.Prefix + ":" + n}
 		for _, im := range mod.Imports {
@@ -111,7 +109,7 @@ func (b *GenBinder) GroupingNames(mod *ymodel.Module, chain []*ymodel.Body) []st
 		for _, w := range spellings {
 			g, _ := r.BindGrouping(s, w)
 			if g != nil && b.CompleteG(g) {
-				out = append(out, w)
+				out = append(out, ymodel.GroupingCand{Written: w, G: g})
 			}
 		}
 	}
